@@ -6,7 +6,10 @@ package main
 // handler, which parses the Cookie header of the incoming request. Every call runs under recover and a hang guard.
 
 import (
+	"bufio"
 	"context"
+	"net"
+	"sync"
 	"encoding/json"
 	"fmt"
 	"io"
@@ -33,7 +36,55 @@ type answerT struct {
 	status int
 	body   []byte
 	header map[string]string
+	raw    []byte // when set: these very bytes are served from a TCP listener and parsed by net/http's real client
 }
+
+// rawServer: a TCP listener that answers every request with scripted bytes (status lines and header blocks
+// that net/http's server would refuse to emit)
+type rawServer struct {
+	ln     net.Listener
+	mu     sync.Mutex
+	byPath map[string][]byte
+}
+
+func newRawServer() *rawServer {
+	ln, err := net.Listen("tcp", "127.0.0.1:0")
+	if err != nil {
+		panic(err)
+	}
+	s := &rawServer{ln: ln, byPath: map[string][]byte{}}
+	go func() {
+		for {
+			c, err := ln.Accept()
+			if err != nil {
+				return
+			}
+			go func(c net.Conn) {
+				defer c.Close()
+				c.SetDeadline(time.Now().Add(3 * time.Second))
+				req, err := http.ReadRequest(bufio.NewReader(c))
+				if err != nil {
+					return
+				}
+				io.Copy(io.Discard, req.Body)
+				s.mu.Lock()
+				b := s.byPath[req.URL.Path]
+				s.mu.Unlock()
+				c.Write(b)
+			}(c)
+		}
+	}()
+	return s
+}
+
+func (s *rawServer) set(path string, b []byte) {
+	s.mu.Lock()
+	s.byPath[path] = b
+	s.mu.Unlock()
+}
+
+var theRaw *rawServer
+var rawTransport = &http.Transport{DisableKeepAlives: true, ResponseHeaderTimeout: 500 * time.Millisecond, Proxy: nil}
 
 // mux: scripted provider, answer chosen by URL path
 type mux struct {
@@ -50,6 +101,13 @@ func (m *mux) RoundTrip(req *http.Request) (*http.Response, error) {
 	a := m.byPath[req.URL.Path]
 	if a == nil {
 		a = m.def
+	}
+	if a.raw != nil {
+		theRaw.set(req.URL.Path, a.raw)
+		r2 := req.Clone(req.Context())
+		r2.URL = &url.URL{Scheme: "http", Host: theRaw.ln.Addr().String(), Path: req.URL.Path, RawQuery: req.URL.RawQuery}
+		r2.Host, r2.RequestURI = "", ""
+		return rawTransport.RoundTrip(r2)
 	}
 	h := http.Header{}
 	for k, v := range a.header {
@@ -153,6 +211,57 @@ func (g *gen) tokenAnswer(l string) []byte {
 	return jobj(m...).Bytes(r, true)
 }
 
+// rawAnswer: a complete HTTP/1.x response as bytes around the given body
+func (g *gen) rawAnswer(body []byte) (raw []byte, statusLine string) {
+	r := g.r
+	code := drv.Pick(r, []string{"000", "099", "012", "001", "100", "101", "102", "103", "199", "200", "200", "201", "204", "205", "206", "300", "302", "304", "305", "400", "401", "418", "429",
+		"500", "503", "599", "600", "999", "000", "099", "010", "600", "700", "999", "1000", "20", "abc", "-01", "+20", "2 0", "200.0", ""})
+	version := drv.Pick(r, []string{"HTTP/1.1", "HTTP/1.1", "HTTP/1.1", "HTTP/1.1", "HTTP/1.1", "HTTP/1.1", "HTTP/1.1", "HTTP/1.1", "HTTP/1.1", "HTTP/1.1", "HTTP/1.1", "HTTP/1.1", "HTTP/1.0", "HTTP/1.0",
+		"HTTP/2.0", "HTTP/0.9", "http/1.1", "HTTP/1.10", "HTP/1.1"})
+	reason := drv.Pick(r, []string{" OK", " x", "", " ", " " + g.junk(1), " Internal Server Error"})
+	statusLine = version + " " + code + reason
+	var sb strings.Builder
+	if r.Chance(1, 8) { // informational responses first
+		for k := drv.Pick(r, []int{1, 1, 2, 5, 6}); k > 0; k-- {
+			sb.WriteString("HTTP/1.1 " + drv.Pick(r, []string{"100 Continue", "102 Processing", "103 Early Hints", "199 x"}) + "\r\n\r\n")
+		}
+	}
+	sb.WriteString(statusLine + "\r\n")
+	if !r.Chance(1, 6) {
+		sb.WriteString("Content-Type: " + drv.Pick(r, []string{"application/json", "application/json", "application/json; charset=utf-8", "text/html", "application/jwt", g.junk(1)}) + "\r\n")
+	}
+	switch r.IntN(12) {
+	case 0: // close-delimited
+	case 1:
+		sb.WriteString(fmt.Sprintf("Content-Length: %d\r\n", len(body)+1+r.IntN(100)))
+	case 2:
+		sb.WriteString(fmt.Sprintf("Content-Length: %d\r\n", len(body)/2))
+	case 3:
+		sb.WriteString(fmt.Sprintf("Content-Length: %d\r\nContent-Length: %d\r\n", len(body), len(body)+1))
+	case 4:
+		sb.WriteString("Content-Length: " + drv.Pick(r, []string{"-1", "abc", "", "99999999999999999999", "+5", "0x10"}) + "\r\n")
+	case 5: // chunked, well-formed or not
+		sb.WriteString("Transfer-Encoding: chunked\r\n\r\n")
+		if r.Bool() {
+			sb.WriteString(fmt.Sprintf("%x\r\n%s\r\n0\r\n\r\n", len(body), body))
+		} else {
+			sb.WriteString(drv.Pick(r, []string{"zz\r\n", "ffffffffffffffffff\r\n", "5\r\nab", "-1\r\n", ""}) + string(body))
+		}
+		return []byte(sb.String()), statusLine
+	default:
+		sb.WriteString(fmt.Sprintf("Content-Length: %d\r\n", len(body)))
+	}
+	if r.Chance(1, 5) {
+		sb.WriteString("Location: " + strings.NewReplacer("\r", "", "\n", "").Replace(g.locationValue()) + "\r\n")
+	}
+	if r.Chance(1, 8) {
+		sb.WriteString(drv.Pick(r, []string{"NoColonHere\r\n", ": empty-name\r\n", "X-Long: " + strings.Repeat("a", 70000) + "\r\n", " folded: x\r\n", "X-Bad\x00Name: y\r\n", "Www-Authenticate: " + strings.NewReplacer("\r", "", "\n", "").Replace(g.authzHeader([]string{"x"})) + "\r\n"}))
+	}
+	sb.WriteString("\r\n")
+	sb.Write(body)
+	return []byte(sb.String()), statusLine
+}
+
 func (g *gen) errorAnswer() []byte {
 	r := g.r
 	return drv.Pick(r, []*J{jobj(kv{"error", jstr("invalid_grant")}), jobj(kv{"error", jint(1)}), jobj(kv{"error", jnull()}), jobj(kv{"error", jstr("")}, kv{"error_description", jarr()}),
@@ -202,9 +311,21 @@ func chainCases(w *emit.Writer, g *gen, n int) {
 	}), relying)
 	authURL := rp.AuthURLHandler(func() string { return "st4te" }, relying)
 
-	names := []string{"EndSession", "Revoke", "Refresh", "CodeExchange", "ClientCredentials", "JWTProfile", "TokenExchange", "DeviceAuthz", "Callback", "Callback"}
+	names := []string{"EndSession", "Revoke", "Refresh", "CodeExchange", "ClientCredentials", "JWTProfile", "TokenExchange", "DeviceAuthz", "Callback", "Callback",
+		"Discover", "Userinfo", "DeviceToken", "Callback"}
+	mainPath := map[string]string{"EndSession": "/end_session", "Revoke": "/revoke", "DeviceAuthz": "/device_authorization", "Discover": "/.well-known/openid-configuration", "Userinfo": "/userinfo"}
+	if theRaw == nil {
+		theRaw = newRawServer()
+	}
 	for i := 0; i < n; i++ {
 		name := names[i%len(names)]
+		// first, systematically: every helper / handler x a hostile status line on its main endpoint, everything else valid
+		enumerated := i < len(distinctHelpers)*len(hostileCodes)
+		enumCode := ""
+		if enumerated {
+			name, enumCode = distinctHelpers[i%len(distinctHelpers)], hostileCodes[i/len(distinctHelpers)]
+		}
+		regression := enumerated && name == "Callback"
 		fixedPaths()
 		status := 200
 		if r.Chance(1, 4) {
@@ -273,6 +394,22 @@ func chainCases(w *emit.Writer, g *gen, n int) {
 				_, err := tokenexchange.ExchangeToken(ctx, te, "subject", oidc.AccessTokenType, "", "", nil, nil, []string{"openid"}, oidc.AccessTokenType)
 				return "", err
 			}
+		case "Discover":
+			m.byPath["/.well-known/openid-configuration"] = &answerT{status: status, body: discoveryDoc(), header: hdr}
+			run = func(ctx context.Context) (string, error) {
+				_, err := client.Discover(ctx, opfix.Issuer, hc)
+				return "", err
+			}
+		case "Userinfo":
+			run = func(ctx context.Context) (string, error) {
+				_, err := rp.Userinfo[*oidc.UserInfo](ctx, "tok", "Bearer", "alice", relying)
+				return "", err
+			}
+		case "DeviceToken":
+			run = func(ctx context.Context) (string, error) {
+				_, err := rp.DeviceAccessToken(ctx, "dc", 20*time.Millisecond, relying)
+				return "", err
+			}
 		case "DeviceAuthz":
 			m.byPath["/device_authorization"] = &answerT{status: status, body: g.doc(scDeviceAuthz).Bytes(r, true), header: hdr}
 			run = func(ctx context.Context) (string, error) {
@@ -287,7 +424,11 @@ func chainCases(w *emit.Writer, g *gen, n int) {
 				good = append(good, c.Name+"="+c.Value)
 			}
 			cookie := strings.Join(good, "; ")
-			switch r.IntN(14) {
+			cm, qm := r.IntN(14), r.IntN(16)
+			if regression {
+				cm, qm = 13, 15
+			}
+			switch cm {
 			case 0:
 				cookie = g.hostileHeader("Cookie", nil)
 			case 1:
@@ -308,7 +449,7 @@ func chainCases(w *emit.Writer, g *gen, n int) {
 				cookie = cookie + "; " + cookie
 			}
 			q := url.Values{"code": {"c0de"}, "state": {"st4te"}}
-			switch r.IntN(16) {
+			switch qm {
 			case 0:
 				q.Set("state", drv.Pick(r, []string{"", "other", "ST4TE", "st4te ", g.junk(2)}))
 			case 1:
@@ -333,13 +474,28 @@ func chainCases(w *emit.Writer, g *gen, n int) {
 				return "RSingle", nil
 			}
 		}
+		// half of the cases: the answer of the helper's main endpoint is served as raw bytes (hostile status lines, header blocks, framing)
+		rawLine := ""
+		if r.Bool() || enumerated {
+			path := mainPath[name]
+			if path == "" {
+				path = "/oauth/token"
+			}
+			if a := m.byPath[path]; a != nil {
+				a.raw, rawLine = g.rawAnswer(a.body)
+				if enumerated {
+					rawLine = "HTTP/1.1 " + enumCode + " x"
+					a.raw = []byte(fmt.Sprintf("%s\r\nContent-Type: application/json\r\nContent-Length: %d\r\n\r\n%s", rawLine, len(a.body), a.body))
+				}
+			}
+		}
 		var cerr error
 		var hclass string
 		lastDesc = ""
 		done := make(chan string, 1)
 		go func() {
 			done <- drv.Catch(func() {
-				ctx, cancel := context.WithTimeout(ctx0, 2*time.Second)
+				ctx, cancel := context.WithTimeout(ctx0, 600*time.Millisecond)
 				defer cancel()
 				hclass, cerr = run(ctx)
 			})
@@ -348,7 +504,7 @@ func chainCases(w *emit.Writer, g *gen, n int) {
 		select {
 		case p = <-done:
 		case <-time.After(15 * time.Second):
-			p = "hang: the helper did not return within 15 s of a 2 s deadline"
+			p = "hang: the helper did not return within 15 s of a 600 ms deadline"
 		}
 		class := "RSingle"
 		switch {
@@ -358,15 +514,18 @@ func chainCases(w *emit.Writer, g *gen, n int) {
 			class = "RDouble"
 		}
 		w.Add(emit.Case{
-			Input:    emit.Ctor("IRoute", "Direct", emit.Nat(17), emit.Str(digest(name, fmt.Sprint(status), string(tokBody), reqHuman, fmt.Sprint(i)))),
+			Input:    emit.Ctor("IRoute", "Direct", emit.Nat(17), emit.Str(digest(name, fmt.Sprint(status), string(tokBody), reqHuman, rawLine, fmt.Sprint(i)))),
 			Observed: emit.Ctor("ORoute", class),
-			Tags:     []string{"kind=chain", "helper=" + name, fmt.Sprintf("status=%d", status)},
+			Tags:     chainTags(name, status, rawLine, regression && enumCode < "100"),
 			Human: map[string]any{"helper": name, "token_answer": short(tokBody), "token_status": status, "request": reqHuman, "provider_calls": strings.Join(m.calls, " "),
-				"panic": p, "err": fmt.Sprint(cerr), "handler_said": short([]byte(lastDesc))},
+				"panic": p, "err": short([]byte(fmt.Sprint(cerr))), "handler_said": short([]byte(lastDesc)), "raw_status_line": rawLine},
 		})
 	}
 	_ = unauthorized + errored
 }
+
+var distinctHelpers = []string{"Callback", "EndSession", "Revoke", "Refresh", "CodeExchange", "ClientCredentials", "JWTProfile", "TokenExchange", "DeviceAuthz", "Discover", "Userinfo", "DeviceToken"}
+var hostileCodes = []string{"099", "000", "100", "199", "204", "304", "600", "999"}
 
 type rec2 struct {
 	*httptest.ResponseRecorder
@@ -379,4 +538,12 @@ func (c *rec2) Write(b []byte) (int, error) {
 		c.writes++
 	}
 	return c.ResponseRecorder.Write(b)
+}
+
+func chainTags(name string, status int, rawLine string, regression bool) []string {
+	t := []string{"kind=chain", "helper=" + name, fmt.Sprintf("status=%d", status), fmt.Sprintf("raw=%v", rawLine != "")}
+	if regression {
+		t = append(t, "f=rp-status-passthrough")
+	}
+	return t
 }
